@@ -21,7 +21,7 @@ CLAIMED["C15"] = dict(
 CLAIMED["C16"] = dict(
     engine="kv",
     technique="Coq proof (PrefixEndBytes range characterisation by induction on bytes; gas meter arithmetic by lia; iterator-step gas by induction over the iterated items) + differential correspondence model vs store/prefix, gaskv, tracekv, types/gas.go",
-    text="Machine-checked: [prefix, PrefixEndBytes(prefix)) is exactly the set of keys with that prefix for every non-empty prefix incl. all-0xFF; ConsumeGas adds exactly, raises out-of-gas exactly when the running total crosses the limit and reports (never wraps) an overflow; gas/trace stores return the wrapped store's result and log one line per traced op; a complete iterator loop over a gas store returns exactly the in-range items, charges per-byte*len(value) + the flat step cost per item (the first item once more at creation) and runs out of gas at exactly the step that crosses the limit (induction over the items, Store/IterGas.v); a complete loop over a traced store logs exactly one iterKey and one iterValue line per item in order. The full wrapper models (per-iterator-step gas, trace order, prefix iterators) are compared with the code on random stackings every run, result + gas total + trace after every op.",
+    text="Machine-checked: [prefix, PrefixEndBytes(prefix)) is exactly the set of keys with that prefix for every non-empty prefix incl. all-0xFF; ConsumeGas adds exactly, raises out-of-gas exactly when the running total crosses the limit and reports (never wraps) an overflow; gas/trace stores return the wrapped store's result and log one line per traced op; a complete iterator loop over a gas store returns exactly the in-range items, charges per-byte*len(value) + the flat step cost per item (the first item once more at creation) and runs out of gas at exactly the step that crosses the limit (induction over the items, Store/IterGas.v), also when a prefix store sits between the gas store and the map (keys stripped, values charged); a complete loop over a traced store logs exactly one iterKey and one iterValue line per item in order. The full wrapper models (per-iterator-step gas, trace order, prefix iterators) are compared with the code on random stackings every run, result + gas total + trace after every op.",
     note="Trusted: Coq kernel, extraction, OCaml/Go drivers. tracekv does not trace Has (upstream behaviour) - modelled as coded. uint64 per-byte cost multiplication wraps only for values > 2^62 bytes (modelled as mod 2^64).",
     design_ref="§6 C16")
 CLAIMED["C02"] = dict(
